@@ -448,3 +448,74 @@ def p4(prog, tier="quick"):
         findings.append({"key": "P4:selector::matches", "where": "libzwerg/selector.hh",
                          "msg": "overload selection no longer looks at exactly the top n value types: %s" % bad, "detail": None})
     return inst, findings
+
+
+def p2c(prog):
+    """stack accessors are guarded exactly: get(d)/top()/pop()/drop(n) on a stack of n values raise the underflow error iff they
+    would reach below the bottom, and never read outside the vector (abstract evaluation; out-of-bounds = finding)"""
+    from absint import Evaluator, Thrown
+    inst, findings = [], []
+    fns = {}
+    for f in prog.funcs.values():
+        if f.get("cls") == "stack" and f["n"] in ("get", "top", "pop", "drop", "need"):
+            fns.setdefault(f["n"], []).append(f)
+    for n in ("get", "top", "pop", "drop", "need"):
+        if n not in fns:
+            raise Broken("anchor stack::%s vanished" % n)
+    hooks = {
+        "method:size": lambda ev, o, a: len(o.items),
+        "method:back": lambda ev, o, a: o.items[-1] if o.items else (_ for _ in ()).throw(OutOfBounds("back() of an empty vector")),
+        "method:pop_back": lambda ev, o, a: o.items.pop() if o.items else (_ for _ in ()).throw(OutOfBounds("pop_back() on an empty vector")),
+        "method:push_back": lambda ev, o, a: o.items.append(a[0]),
+        "method:end": lambda ev, o, a: _It(o, len(o.items)),
+        "method:begin": lambda ev, o, a: _It(o, 0),
+        "method:rbegin": lambda ev, o, a: _It(o, 0, True),
+        "method:erase": lambda ev, o, a: o.items.__delitem__(slice(a[0].pos, a[1].pos)) if 0 <= a[0].pos <= a[1].pos <= len(o.items) else (_ for _ in ()).throw(OutOfBounds("erase outside the vector")),
+        "method:operator*": lambda ev, o, a: o.deref() if isinstance(o, _It) else o,
+        "method:operator->": lambda ev, o, a: o.deref() if isinstance(o, _It) else o,
+        "method:operator-": lambda ev, o, a: o.arith("-", a[0]),
+        "method:operator+": lambda ev, o, a: o.arith("+", a[0]),
+        "method:get": lambda ev, o, a: o,
+        "zw_value::get_type": lambda ev, o, a: _TypeObj(o.code),
+        "value_type::code": lambda ev, o, a: o._code,
+        "ctor:std::runtime_error": lambda ev, o, a: "exc",
+    }
+    w = prog.globals.get("selector::W")
+    W = (w.get("init") or {}).get("iv") if w else 4
+    ev = Evaluator(hooks, {"selector::W": W}, ptr_lt=True, prog=prog)
+    n_eval = 0
+    for name, expect_throw, args_of in (
+            ("get", lambda n, d: d >= n, lambda n: range(0, n + 2)),
+            ("top", lambda n, d: n == 0, lambda n: [None]),
+            ("pop", lambda n, d: n == 0, lambda n: [None]),
+            ("drop", lambda n, d: d > n, lambda n: range(0, n + 2))):
+        for f in fns[name]:
+            bad = None
+            for n in range(0, 4):
+                for d in args_of(n):
+                    st = _Stack()
+                    st.m_values.items = [_Val(1 + (i % 2)) for i in range(n)]
+                    for i in range(min(W, n)):
+                        st.m_profile |= st.m_values.items[-1 - i].code << (8 * i)
+                    before = list(st.m_values.items)
+                    n_eval += 1
+                    try:
+                        r = ev.call(f, st, [] if d is None else [d])
+                        threw = False
+                    except Thrown:
+                        threw = True
+                    except OutOfBounds as e:
+                        bad = bad or "%s(%s) on a stack of %d values reads %s" % (name, "" if d is None else d, n, e)
+                        continue
+                    if threw != expect_throw(n, d):
+                        bad = bad or "%s(%s) on a stack of %d values %s" % (name, "" if d is None else d, n, "raises an error although the operand exists" if threw else "does not raise the underflow error")
+                    elif not threw and name == "get" and r is not before[-1 - d]:
+                        bad = bad or "get(%d) returns the wrong slot" % d
+            key = "P2c:%s" % f["fid"].split("(")[0] + ("const" if f.get("const") else "")
+            inst.append((key, {"guarded_exactly": bad is None}))
+            if bad:
+                findings.append({"key": key, "where": "libzwerg/stack.hh:%s" % f["l"].split(":")[-1],
+                                 "msg": "stack accessor bounds check is wrong: %s (a run-time underflow must surface as an error through the API, not as an out-of-bounds read)" % bad,
+                                 "detail": None})
+    inst.append(("P2c:evaluations", {"calls": n_eval}))
+    return inst, findings
